@@ -191,4 +191,139 @@ def checks_exact : Prop :=
 
 theorem checks_exact_counterexample : ¬ checks_exact := fun h => close_counterexample h.1
 
+open GV.Defer
+
+/-! ## `$recover` depth arithmetic -/
+
+/-- how a function on the JS stack above the panicking `$callDeferred` was called -/
+inductive CallKind
+  | plain    -- directly: one JS frame
+  | mexpr    -- through a `$methodExpr` / `$ifaceMethodExpr` wrapper: two frames, `$stackDepthOffset--`
+  | fwd      -- through a compiler-generated forwarding method: two frames, no adjustment
+  deriving DecidableEq, Repr
+
+/-- one call on the chain from the deferred-call loop to the function that calls `recover()`;
+    `viaReturn` = the call is a deferred call made by a nested `$callDeferred` at a normal return
+    (one more frame and one more `$stackDepthOffset--`) -/
+structure Link where
+  viaReturn : Bool
+  kind : CallKind
+  deriving DecidableEq, Repr
+
+def Link.frames (l : Link) : Nat :=
+  (if l.viaReturn then 1 else 0) + (match l.kind with | .plain => 1 | _ => 2)
+def Link.decs (l : Link) : Nat :=
+  (if l.viaReturn then 1 else 0) + (match l.kind with | .mexpr => 1 | _ => 0)
+def chainFrames (ls : List Link) : Nat := (ls.map Link.frames).sum
+def chainDecs (ls : List Link) : Nat := (ls.map Link.decs).sum
+
+/-- `$callDeferred` (frame depth `c`, offset `off` after its own decrement) stored
+    `$panicStackDepth = $getStackDepth()`. A function reached from its loop through the chain `ls`
+    calls `recover()`: the depth test of `$recover` succeeds iff #frames = #decrements + 1. -/
+theorem recover_depth_arith (c : Nat) (off : Int) (ls : List Link) (s : JS)
+    (hpsd : s.psd = some (getStackDepth { s with off := off } c))
+    (hoff : s.off = off - chainDecs ls) :
+    (eRecover (c + chainFrames ls + 1) s).2 = (if chainFrames ls = chainDecs ls + 1 then some s.pv else none) := by
+  unfold eRecover
+  rw [hpsd]
+  simp only [getStackDepth, hoff]
+  by_cases h : chainFrames ls = chainDecs ls + 1
+  · rw [if_pos h, if_neg]
+    intro hh; apply hh; push_cast; omega
+  · rw [if_neg h, if_pos]
+    intro hh; apply h
+    have : (chainFrames ls : Int) = chainDecs ls + 1 := by push_cast at hh; omega
+    exact_mod_cast this
+
+theorem link_frames_ge (l : Link) : l.decs + 1 ≤ l.frames := by
+  cases l with | mk v k => cases v <;> cases k <;> simp [Link.frames, Link.decs]
+
+theorem chain_frames_ge (ls : List Link) : chainDecs ls + ls.length ≤ chainFrames ls := by
+  induction ls with
+  | nil => simp [chainDecs, chainFrames]
+  | cons l t ih =>
+    have := link_frames_ge l
+    simp only [chainDecs, chainFrames, List.map_cons, List.sum_cons, List.length_cons] at *
+    omega
+
+/-- the depth test selects exactly "called directly by the deferred-call loop", looking through
+    `$methodExpr` wrappers (which Go also looks through) — for every call chain. -/
+theorem recover_depth (ls : List Link) (hne : ls ≠ []) (hfirst : ∀ l, ls.head? = some l → l.viaReturn = false) :
+    chainFrames ls = chainDecs ls + 1 ↔ (ls = [⟨false, .plain⟩] ∨ ls = [⟨false, .mexpr⟩]) := by
+  constructor
+  · intro h
+    match ls, hne, hfirst with
+    | [l], _, hf =>
+      have hv := hf l rfl
+      cases l with | mk v k =>
+      simp only at hv
+      subst hv
+      cases k
+      · left; rfl
+      · right; rfl
+      · simp [chainFrames, chainDecs, Link.frames, Link.decs] at h
+    | l :: l2 :: t, _, _ =>
+      have := chain_frames_ge (l :: l2 :: t)
+      simp only [List.length_cons] at this
+      omega
+  · rintro (h | h) <;> subst h <;> simp [chainFrames, chainDecs, Link.frames, Link.decs]
+
+/-- Go looks through forwarding methods too; the depth test does not (known finding) -/
+theorem recover_depth_forwarding_counterexample :
+    ¬ (chainFrames [⟨false, .fwd⟩] = chainDecs [⟨false, .fwd⟩] + 1) := by decide
+
+/-! ## emulation versus reference -/
+
+/-- FULL statement, NOT claimed: whenever both interpreters finish, they agree on the trace of function
+    executions (deferred calls exactly once, LIFO, captured arguments), recovered values, results and outcome. -/
+def defer_refines : Prop :=
+  ∀ (P : Prog) (n m : Nat), (emu n P).outcome ≠ .oof → (ref m P).outcome ≠ .oof → emu n P = ref m P
+
+/-- `defer f1(); defer f2(); panic(1)` with f1 = `recover()`, f2 = `panic(2)` -/
+def W_replaced : Prog :=
+  [⟨false, [.defer_ .direct 1 (.const 0), .defer_ .direct 2 (.const 0), .panic 1]⟩, ⟨false, [.recover]⟩, ⟨false, [.panic 2]⟩]
+/-- `defer f1(); defer recover(); panic(1)` -/
+def W_builtin : Prog :=
+  [⟨false, [.defer_ .direct 1 (.const 0), .deferRecover, .panic 1]⟩, ⟨false, [.recover]⟩]
+/-- `defer f1(); defer p.f2(); panic(1)` through the pointer forwarding method -/
+def W_forward : Prog :=
+  [⟨false, [.defer_ .direct 1 (.const 0), .defer_ .pwrap 2 (.const 0), .panic 1]⟩, ⟨false, [.recover]⟩, ⟨false, [.recover]⟩]
+/-- `f1(); recover()` with f1 = `defer f2(1); runtime.Goexit()` -/
+def W_goexit : Prog :=
+  [⟨false, [.call .direct 1, .recover]⟩, ⟨false, [.defer_ .direct 2 (.const 1), .goexit]⟩, ⟨false, [.recover]⟩]
+
+theorem emu_replaced : emu 40 W_replaced = ⟨[.run 0 0, .run 2 0, .run 1 0, .recov (some 2)], .panic 1⟩ := by decide +kernel
+theorem ref_replaced : ref 40 W_replaced = ⟨[.run 0 0, .run 2 0, .run 1 0, .recov (some 2)], .normal⟩ := by decide +kernel
+theorem emu_builtin : emu 40 W_builtin = ⟨[.run 0 0, .run 1 0, .recov none], .normal⟩ := by decide +kernel
+theorem ref_builtin : ref 40 W_builtin = ⟨[.run 0 0, .run 1 0, .recov (some 1)], .normal⟩ := by decide +kernel
+theorem emu_forward : emu 40 W_forward = ⟨[.run 0 0, .run 2 0, .recov none, .run 1 0, .recov (some 1)], .normal⟩ := by decide +kernel
+theorem ref_forward : ref 40 W_forward = ⟨[.run 0 0, .run 2 0, .recov (some 1), .run 1 0, .recov none], .normal⟩ := by decide +kernel
+theorem emu_goexit : emu 40 W_goexit =
+    ⟨[.run 0 0, .run 1 0, .run 2 1, .recov none, .result 1 0, .recov none], .normal⟩ := by decide +kernel
+theorem ref_goexit : ref 40 W_goexit = ⟨[.run 0 0, .run 1 0, .run 2 1, .recov none], .goexit⟩ := by decide +kernel
+
+theorem defer_refines_counterexample_replaced : ¬ defer_refines := by
+  intro h
+  have := h W_replaced 40 40 (by rw [emu_replaced]; decide) (by rw [ref_replaced]; decide)
+  rw [emu_replaced, ref_replaced] at this
+  exact absurd this (by decide)
+
+theorem defer_refines_counterexample_builtin : ¬ defer_refines := by
+  intro h
+  have := h W_builtin 40 40 (by rw [emu_builtin]; decide) (by rw [ref_builtin]; decide)
+  rw [emu_builtin, ref_builtin] at this
+  exact absurd this (by decide)
+
+theorem defer_refines_counterexample_forward : ¬ defer_refines := by
+  intro h
+  have := h W_forward 40 40 (by rw [emu_forward]; decide) (by rw [ref_forward]; decide)
+  rw [emu_forward, ref_forward] at this
+  exact absurd this (by decide)
+
+theorem defer_refines_counterexample_goexit : ¬ defer_refines := by
+  intro h
+  have := h W_goexit 40 40 (by rw [emu_goexit]; decide) (by rw [ref_goexit]; decide)
+  rw [emu_goexit, ref_goexit] at this
+  exact absurd this (by decide)
+
 end GV.Props.C08
